@@ -127,6 +127,15 @@ def entries():
     main = ARG0 + [("push", 5), "EQ", ("ref", "P"), "JUMPI", ("push", 2), "PUSH0", "MSTORE"] + ret(32) + \
            [("label", "P")] + ARG0 + [("push", 5), "EQ", ("push", 0xEF), "JUMPI", ("push", 3), "PUSH0", "MSTORE"] + ret(32)
     out.append(("jumpi-decided-cond-invalid-target", {T: main}, {}))
+    # -- a pranked frame that pays: vm.prank(A), then CREATE / CALL with a symbolic value -- the account whose balance
+    #    decides the insufficient-funds fork must be the one that is debited on the success path         [C02-m12]
+    prank = [("pushn", 32, 0xCA669FA7 << 224), "PUSH0", "MSTORE", ("push", A), ("push", 4), "MSTORE",
+             "PUSH0", "PUSH0", ("push", 36), "PUSH0", "PUSH0", ("pushn", 20, hevm), ("push", 100000), "CALL", "POP"]
+    pre, n = initcode_words(asm.assemble(["STOP"]))
+    main = prank + pre + [("push", 1000), "POP", ("push", n), ("push", 256)] + ARG0 + ["CREATE", "ISZERO", "ISZERO", "PUSH0", "MSTORE", "SELFBALANCE", ("push", 32), "MSTORE"] + ret(64)
+    out.append(("pranked-create-with-symbolic-value", {T: main, A: ["STOP"]}, {"_c02_only": True}))
+    main = prank + [("push", 1000), "POP"] + call("CALL", B, value=ARG0, argsz=0, retsz=0) + ["PUSH0", "MSTORE", "SELFBALANCE", ("push", 32), "MSTORE"] + ret(64)
+    out.append(("pranked-call-with-symbolic-value", {T: main, A: ["STOP"], B: ["STOP"]}, {"_c02_only": True}))
     # -- symbolic initial storage: a mapping entry m[arg1] (slot 2) and a scalar (slot 1) are inputs; both are published,
     #    one of them after being overwritten on one side of a branch                                      [harness false alarm, 10.3]
     mload = ARG1 + ["PUSH0", "MSTORE", ("push", 2), ("push", 32), "MSTORE", ("push", 64), "PUSH0", "SHA3", "SLOAD"]
